@@ -1194,6 +1194,90 @@ func (g *gen) longRunCase(n int, ident string, custom string, steps int) {
 	g.do(fmt.Sprintf("p-budget 0 %d", g.maxCap))
 }
 
+// interleaveCase: a parent builds a history of h cheap back-offs (h = 0..13, so the Go slices of the history have spare
+// capacity for most h), then is cloned / forked one to three times (children of children included); from then on the
+// live back-offers take turns, each backing off on its OWN kind (kinds that do not occur in the history and differ
+// between the participants), until each of them has found its budget exhausted.  Every call is followed by p-last, so
+// every exhaustion of every participant is judged: the reported error must be the error of the kind that slept longest
+// on THAT back-offer.  Whatever a sibling does to state that should have been copied shows up here.
+func (g *gen) interleaveCase(n int) {
+	g.run.Comment("case " + strconv.Itoa(n))
+	g.do("reset")
+	g.idents = nil
+	g.maxCap = 10000
+	budget := []int{10, 20, 50, 150, 400}[g.r.Intn(5)]
+	switch g.r.Intn(3) {
+	case 0:
+		g.do(fmt.Sprintf("new plain %d", budget))
+	case 1:
+		g.do(fmt.Sprintf("new vars %d 10 1", budget))
+	default:
+		g.do(fmt.Sprintf("new vars %d 10 2", budget))
+	}
+	// history: cheap kinds, each sleep cut to <= 1 ms so that the budget survives
+	cheap := []string{"regionMiss", "regionScheduling", "txnNotFound", "staleCommand", "maxTsNotSynced", "commitTSLag", "regionNotInitialized"}
+	hk := cheap[:1+g.r.Intn(3)]
+	h := g.r.Intn(14)
+	if h > budget/2 {
+		h = budget / 2
+	}
+	for i := 0; i < h; i++ {
+		g.do(fmt.Sprintf("bo 0 %s %d 0 -", hk[g.r.Intn(len(hk))], g.r.Intn(2)))
+		g.do("p-last")
+	}
+	// participants
+	parts := []int{0}
+	for c := 1 + g.r.Intn(3); c > 0; c-- {
+		src := parts[g.r.Intn(len(parts))]
+		if g.r.Chance(65) {
+			g.do(fmt.Sprintf("clone %d", src))
+		} else {
+			g.do(fmt.Sprintf("fork %d", src))
+		}
+		g.do("p-last")
+		parts = append(parts, len(w.bs)-1)
+	}
+	// one own kind per participant, none of them in the history
+	heavy := []string{"tikvRPC", "tiflashRPC", "txnLock", "pdRPC", "tikvDiskFull", "regionRecoveryInProgress", "isWitness", "tiflashServerBusy", "txnLockFast"}
+	for i := len(heavy) - 1; i > 0; i-- {
+		j := g.r.Intn(i + 1)
+		heavy[i], heavy[j] = heavy[j], heavy[i]
+	}
+	kind := map[int]string{}
+	for i, p := range parts {
+		kind[p] = heavy[i%len(heavy)]
+	}
+	if g.r.Chance(30) { // the parent keeps to a cheap kind and so stays alive longer
+		kind[0] = cheap[len(cheap)-1-g.r.Intn(3)]
+	}
+	done := map[int]bool{}
+	for round := 0; round < 12 && len(done) < len(parts); round++ {
+		order := append([]int{}, parts...)
+		if g.r.Bool() { // children first, then the parent; or any order
+			for i := len(order) - 1; i > 0; i-- {
+				j := g.r.Intn(i + 1)
+				order[i], order[j] = order[j], order[i]
+			}
+		} else {
+			order = append(order[1:], order[0])
+		}
+		for _, p := range order {
+			if done[p] {
+				continue
+			}
+			res := g.do(fmt.Sprintf("bo %d %s -1 0 -", p, kind[p]))
+			g.do("p-last")
+			if !strings.HasPrefix(res, "slept") {
+				done[p] = true
+			}
+		}
+	}
+	for _, p := range parts {
+		g.do(fmt.Sprintf("st %d", p))
+		g.do(fmt.Sprintf("p-budget %d %d", p, g.maxCap))
+	}
+}
+
 // resetCase: excluded-kind back-offs, then Reset / ResetMaxSleep, then ordinary back-offs until the budget is exhausted
 // (on the reset back-offer itself or on a clone / fork of it): the stage after the reset must start from zero in BOTH
 // counters.
@@ -1313,6 +1397,10 @@ func main() {
 		}
 		if n%10 == 3 {
 			g.resetCase(n)
+			continue
+		}
+		if n%10 == 7 || n%20 == 11 {
+			g.interleaveCase(n)
 			continue
 		}
 		if n%50 == 2 {
